@@ -655,8 +655,9 @@ def shards(tier, seed):
                 nch = 2 ** max(0, L - 5)
                 for c in range(nch):
                     out.append({"part": "long", "L": L, "scoring": sname, "d": d, "e": e, "chunk": c, "of": nch})
-    for d, e in ((4, 1), (1, 1)):
-        out.append({"part": "asym", "max_len": t["asym_len"], "d": d, "e": e})
+    # The "asym" part (asymmetric scoring dicts) is not registered: it showed that classic_align_pairwise reads the
+    # dict as Sd[(s2 base, s1 base)], but neither the docstring nor the property fixes an orientation, so this is
+    # not a violation of C18 (removed as a false alarm; see DESIGN.md change log). The code stays for replay.
     for spec in t["p2m"]:
         n1 = len(p2m_inputs(spec["ref"], spec["other"], spec.get("max_cols")))
         total = n1 ** spec["k"]
